@@ -9,6 +9,7 @@ import (
 	"strconv"
 	"strings"
 	"testing"
+	"unicode/utf8"
 
 	"github.com/biogo/biogo/alphabet"
 	"github.com/biogo/biogo/feat"
@@ -77,6 +78,12 @@ type C02Plan struct {
 	// WriteFault > 0: additionally write to a medium that fails after
 	// (WriteFault-1) mod len(text) bytes.
 	WriteFault int `json:"write_fault,omitempty"`
+	// Reject > 0: the medium refuses the first call of the Write of record
+	// Reject-1 once and works again afterwards; with Retry the caller writes
+	// that record again. The file must hold exactly the records whose Write
+	// succeeded (want is built from those).
+	Reject int  `json:"reject,omitempty"`
+	Retry  bool `json:"retry,omitempty"`
 }
 
 const fieldChars = "abcXYZ019_.:|>@+#;=-/ *~!\"'"
@@ -100,6 +107,21 @@ func genField(r *simrt.RNG, noSpace bool) string {
 			}
 		}
 		s := strings.TrimSpace(string(b))
+		if r.Intn(10) == 0 {
+			// text is not restricted to ASCII
+			u := []string{"à", "Å", "é", "ß", "ü", "日本", "Ω", "ñ"}[r.Intn(8)]
+			switch r.Intn(3) {
+			case 0:
+				s += u
+			case 1:
+				s = u + s
+			default:
+				s = s[:len(s)/2] + u + s[len(s)/2:]
+			}
+			if !utf8.ValidString(s) {
+				s = u
+			}
+		}
 		if s != "" && s[0] != '#' {
 			return s
 		}
@@ -360,6 +382,9 @@ func genC02(r *simrt.RNG) *Case {
 		if r.Bool() {
 			pl.WriteFault = 1 + r.Intn(200)
 		}
+	} else if n := len(pl.Beds) + len(pl.Items); n > 0 && r.Intn(6) == 0 {
+		pl.Reject = 1 + r.Intn(n)
+		pl.Retry = r.Bool()
 	}
 	return &Case{Prop: "C02", Kind: pl.Format, Plan: marshalPlan(pl)}
 }
@@ -380,9 +405,25 @@ func writeFeatsTo(pl *C02Plan, sink *simio.Sink) (text []byte, want []string, wr
 			return nil, nil, 0, viol(site+"-writer", "NewWriter(%d): %v", pl.WriteType, err)
 		}
 		w = bw
-		for i, b := range pl.Beds {
+		retry := pl.Retry
+		for i := 0; i < len(pl.Beds); i++ {
+			b := pl.Beds[i]
+			if i == pl.Reject-1 && !sink.Rejected {
+				sink.RejectCall = sink.NCalls + 1
+			}
 			before := len(sink.Buf)
 			n, err := w.Write(b.build(pl.BedType))
+			if err != nil && sink.Rejected && !sink.Failed && n == len(sink.Buf)-before {
+				// the medium refused a call once; this record is not written
+				if len(sink.Buf) != before {
+					return sink.Buf, nil, sink.NCalls, nil // a partial record reached the medium: nothing more can be asked
+				}
+				if retry {
+					retry = false
+					i--
+				}
+				continue
+			}
 			if err != nil && !sink.Failed {
 				return nil, nil, 0, viol(site+"-write-error", "record %d: Write failed on a healthy sink: %v", i, err)
 			}
@@ -402,10 +443,25 @@ func writeFeatsTo(pl *C02Plan, sink *simio.Sink) (text []byte, want []string, wr
 	}
 	gw := gff.NewWriter(sink, pl.Width, pl.Header)
 	w = gw
-	for i, it := range pl.Items {
+	retry := pl.Retry
+	for i := 0; i < len(pl.Items); i++ {
+		it := pl.Items[i]
+		if i == pl.Reject-1 && !sink.Rejected {
+			sink.RejectCall = sink.NCalls + 1
+		}
 		before := len(sink.Buf)
 		f := it.build()
 		n, err := w.Write(f)
+		if err != nil && sink.Rejected && !sink.Failed && n == len(sink.Buf)-before {
+			if len(sink.Buf) != before {
+				return sink.Buf, nil, sink.NCalls, nil
+			}
+			if retry {
+				retry = false
+				i--
+			}
+			continue
+		}
 		if err != nil && !sink.Failed {
 			return nil, nil, 0, viol(site+"-write-error", "item %d (%s): Write failed on a healthy sink: %v", i, it.Kind, err)
 		}
@@ -529,11 +585,19 @@ func runC02(t *testing.T, c *Case, o RunOpts) *Result {
 		res.Viol = v
 		return res
 	}
+	if pl.Reject > 0 && want == nil && len(text) > 0 {
+		return res // a refused call left a partial record behind: nothing to compare
+	}
 	src := simio.NewSource(text, pl.Delivery)
-	got, v := readFeats(&pl, src, len(want)+2)
+	got, v := readFeats(&pl, src, len(want)+3)
 	res.Steps += src.Reads
 	if v == nil {
 		v = compareFeats("c02-"+pl.Format, want, got)
+	}
+	if v != nil && pl.Reject > 0 {
+		v.Site += "-after-refused-call"
+		v.Text = "after the medium refused one call at a record boundary: " + v.Text
+		res.Fired = append(res.Fired, simrt.IORecord{Kind: "write-call-refused-once"})
 	}
 	if v == nil && pl.WriteFault > 0 && len(text) > 0 {
 		hdr := 0
@@ -553,7 +617,34 @@ func runC02(t *testing.T, c *Case, o RunOpts) *Result {
 	return res
 }
 
+func genPairC02(r *simrt.RNG) *Case {
+	var pp PairPlan
+	for n := r.Range(2, 3); n > 0; n-- {
+		var pl C02Plan
+		json.Unmarshal(genC02(r).Plan, &pl)
+		if len(pl.Beds) > 3 {
+			pl.Beds = pl.Beds[:3]
+		}
+		if len(pl.Items) > 3 {
+			pl.Items = pl.Items[:3]
+		}
+		for i := range pl.Items {
+			if len(pl.Items[i].Letters) > 30 {
+				pl.Items[i].Letters = pl.Items[i].Letters[:30]
+			}
+		}
+		pl.WriteFault, pl.Reject = 0, 0
+		pl.Delivery = simio.NoFault([]string{"all", "uniform", "one"}[r.Intn(3)], r.Uint64())
+		pp.Feat = append(pp.Feat, pl)
+	}
+	return &Case{Prop: "C02", Kind: "pair", Plan: marshalPlan(pp),
+		Sched: Sched{Strategy: fmt.Sprintf("rw:%g", []float64{0.2, 0.5, 1}[r.Intn(3)]), Seed: r.Uint64()}}
+}
+
 func shrinkC02(c *Case) []*Case {
+	if c.Kind == "pair" {
+		return nil
+	}
 	var pl C02Plan
 	json.Unmarshal(c.Plan, &pl)
 	var out []*Case
@@ -630,10 +721,20 @@ func init() {
 	register(&Property{
 		ID: "C02",
 		Explore: func(t *testing.T, w *Worker, r *simrt.RNG) {
+			if r.Intn(12) == 0 {
+				c := genPairC02(r)
+				w.Report(c, runPair(t, c, RunOpts{}))
+				return
+			}
 			c := genC02(r)
 			w.Report(c, runC02(t, c, RunOpts{}))
 		},
-		Run:    runC02,
+		Run: func(t *testing.T, c *Case, o RunOpts) *Result {
+			if c.Kind == "pair" {
+				return runPair(t, c, o)
+			}
+			return runC02(t, c, o)
+		},
 		Shrink: shrinkC02,
 	})
 }
